@@ -126,6 +126,10 @@ def read_rows(root):
         rows = conn.execute(
             "SELECT task_identifier, timestamp, git_commit_hash, has_uncommitted_changes "
             "FROM version_index ORDER BY task_identifier, timestamp").fetchall()
+    except sqlite3.OperationalError as ex:
+        if "no such table" not in str(ex):
+            raise
+        rows = []  # index file created but never initialised (killed/aborted in create_or_load)
     finally:
         conn.close()
     return [(r[0], r[1], r[2], bool(r[3])) for r in rows]
